@@ -148,7 +148,7 @@ func checkC07(c *Case, s *Stats) error {
 }
 
 func layoutName(c *Case) string {
-	if c.Load == "" || c.Load == "reload" || c.Load == "proto" {
+	if c.Load == "" || c.Load == "reload" || c.Load == "proto" || c.Load == "over" {
 		return "current"
 	}
 	return c.Load
